@@ -254,10 +254,39 @@ def gdb_flavour_part(run, tier):
     run.add_part('gdb_flavour', res)
 
 
+def eval_flags(case):
+    """The real command line (stdout is a pipe, so colour is off unless forced)."""
+    import os
+    import subprocess
+    import tempfile
+    V = []
+    flags = case['flags']
+    want_colour = '--color' in flags and '-C' not in flags and '--no-color' not in flags
+    with tempfile.TemporaryDirectory(prefix='verif-c17-') as d:
+        path = os.path.join(d, 'in.log')
+        with open(path, 'w') as f:
+            f.write('\n'.join(universe_lines()[:12]) + '\nplain chatter\n')
+        env = dict(os.environ, PYTHONDONTWRITEBYTECODE='1')
+        p = subprocess.run(['/venv/bin/python', os.path.join(sut.REPO, 'main.py')] + flags + ['-l', path],
+                           input='list wl_surface\nfilter ! .commit\nhelp matcher\nq\n', capture_output=True, text=True, env=env, cwd=d, timeout=60)
+        has = ESC in p.stdout or ESC in p.stderr
+        if has != want_colour:
+            V.append(Violation('colour.flags', case, {'escape_sequences_present': has, 'expected': want_colour, 'stdout_head': p.stdout[:200]}))
+    return Eval(V, outcome=[flags, has], nontrivial=len(flags) >= 2, transitions=1)
+
+
+def gen_flags(tier):
+    for flags in ([], ['-C'], ['--color'], ['-C', '--color'], ['--color', '-C'], ['--no-color', '--color'], ['--color', '--no-color'],
+                  ['--color', '--color'], ['-C', '-C'], ['--supress', '--color', '-C']):
+        yield {'flags': flags}
+
+
 def run(run, tier, seed):
     sut.bind()
     sut.ensure_protocols()
     gdb_flavour_part(run, tier)
+    res = explore.prod(lambda: gen_flags(tier), eval_flags, seed=seed)
+    run.add_part('command_line_flags', res)
     d_un, d_me = (1, 3) if tier == 'quick' else (3, 5)
     res = explore.bfs(make_expand(tier, False), d_un, seed=seed, merge=False, bound={'depth': d_un, 'merged': False})
     run.add_part('lockstep_unmerged', res)
@@ -288,6 +317,8 @@ def replay(case):
     sut.ensure_protocols()
     if 'text' in case:
         return eval_paste(case).viols
+    if 'flags' in case:
+        return eval_flags(case).viols
     if case.get('gdb_flavour'):
         import subprocess
         import sys
